@@ -89,6 +89,30 @@ func OracleC19(tr *Trace) Verdict {
 			Msg: fmt.Sprintf("%s#%d: OnPromote for the term of token %.8s entered at %v with a context that is already done, yet the instance leads that term until %v and no stop call had begun", tr.ID(t.Inst), t.Obj, t.Token, t.EnterT, c.ToT)})
 		break
 	}
+	// ... nor may the context die in the middle of the term: a callback that waits for its context returned
+	// because the context was done (not at teardown), yet the instance goes on leading that very term beyond
+	// that instant and no stop call (or cancellation of the Start context) had begun
+	for _, t := range tr.Terms {
+		c := termClaim[t.ID]
+		if c == nil || !t.Exited || t.ExitedByTeardown || !t.CtxDoneAtExit || t.CtxDoneAtEntry || t.ExitT >= tr.End || tr.Plan.Instances[t.Inst].Promote == 0 {
+			continue
+		}
+		if c.ToSeq >= 0 && c.ToT <= t.ExitT {
+			continue
+		}
+		stopped := false
+		for _, a := range tr.APIs {
+			if a.Obj == t.Obj && (a.Call == "Stop" || a.Call == "StopWithContext" || a.Call == "CancelStartContext") && a.CallSeq > c.FromSeq && a.CallSeq < t.ExitSeq {
+				stopped = true
+			}
+		}
+		if stopped {
+			continue
+		}
+		v.Viols = append(v.Viols, Viol{At: t.ExitT, Sig: "C19 promote-ctx-cancelled-while-leading",
+			Msg: fmt.Sprintf("%s#%d: the context handed to OnPromote for the term of token %.8s (began %v) was done at %v (the callback waiting for it returned), yet the instance goes on leading that term until %v and no stop call had begun", tr.ID(t.Inst), t.Obj, t.Token, c.FromT, t.ExitT, c.ToT)})
+		break
+	}
 	// when OnDemote is entered the term it reports has ended: its context must be done already
 	// (work bound to the context must not outlive the leadership, and OnDemote typically waits for that work)
 	failed := tr.failedStops()
